@@ -174,7 +174,8 @@ func inst(t *T, leaf func() interface{}) interface{} {
 		}
 		return leaf()
 	case 'L':
-		l := make([]interface{}, len(t.Kids))
+		// one spare slot, like a list grown by append (e.g. by the decoders)
+		l := make([]interface{}, len(t.Kids), len(t.Kids)+1)
 		for i, k := range t.Kids {
 			l[i] = inst(k, leaf)
 		}
